@@ -22,6 +22,8 @@ pub struct Node {
     pub enc: Enc,
     /// left padding inside a fixed-size container
     pub pad: usize,
+    /// when set, these bytes are emitted instead of the computed length prefix
+    pub prefix_override: Option<Vec<u8>>,
 }
 
 fn build_level(bytes: &[u8], spans: &[Span], parent: Option<usize>) -> Vec<Node> {
@@ -53,6 +55,7 @@ fn build_level(bytes: &[u8], spans: &[Span], parent: Option<usize>) -> Vec<Node>
             mandatory: s.mandatory,
             enc: s.enc.clone(),
             pad,
+            prefix_override: None,
         });
     }
     out
@@ -76,6 +79,11 @@ pub fn render_node(n: &Node) -> Option<Vec<u8>> {
         Body::Kids(k) => render_nodes(k)?,
     };
     let mut out = n.tag.clone();
+    if let Some(p) = &n.prefix_override {
+        out.extend(p);
+        out.extend(payload);
+        return Some(out);
+    }
     match &n.style {
         Len::None | Len::Temp => {}
         Len::Fixed(sz) => {
